@@ -44,6 +44,13 @@ CHECKS = {
          'for every evaluated line of every circuit of the families, in all three logics and on all stimuli, the callback is used to record, to do '
          'nothing and to overwrite with each of four values; results are compared with a reference evaluation of the graph with that line cut',
          'trusted: mc/ref.py graph evaluator; memory reuse off; callback argument accepted as Line or index', 'DESIGN.md section 4 C16'),
+
+ 'C08': ('model_checking', 'explicit-state BFS over allocator histories on the real object + ownership interpretation of every memory map',
+         'all alloc/free histories of sim.Heap up to depth 10-12 (sizes {1,2,3}, {4,8,12}, {1,2,3,4}, {1,2}; bounded live chunks) are executed on the real '
+         'object with invariants and a lock-step interval-list reference model in every state; every memory map of the circuit families x capacity '
+         'vectors x c_reuse x strip_forks is interpreted cell by cell (ownership) so that any overlap of live data is seen',
+         'trusted: RefHeap and the ownership interpreter in checks/c08.py; canonical state = complete Heap state; TLC model replay is thorough-tier only',
+         'DESIGN.md section 4 C08'),
 }
 
 NOT_YET = 'check not built yet in this session (see DESIGN.md build order); will be claimed once its exhaustive check exists'
